@@ -854,6 +854,12 @@ func genC25(g *Gen, idx int) *Plan {
 		for k := range p.Broker.Injects {
 			p.Broker.Injects[k].ID = uint16(g.Range(1, 12)) // collide with the peer's small ids
 		}
+		switch g.Intn(6) {
+		case 0: // the gateway's writes to the client start to fail (the client's port is gone)
+			p.Cfg.SN.Rules = append(p.Cfg.SN.Rules, Rule{Dir: "g2c", Skip: int(g.Range(0, 8)), Count: int(g.Range(1, 1000)), Act: "werr"})
+		case 1: // the broker stops reading for a while
+			p.Broker.Faults = append(p.Broker.Faults, BrokerFault{AtMs: g.Range(300, sg.t+300), Session: "p1", Kind: "backpressure", Cap: int(g.Range(0, 30)), DurMs: g.Range(120, 3000)})
+		}
 		p.Cfg.HorizonMs = sg.t + 3000
 		return p
 	case 1: // adversarial broker -> gateway
